@@ -24,6 +24,7 @@ ASSUMPTIONS = ["C04 and C05 rules (re-evaluated as part of this check)"]
 RULES_DOC = dict(common.SHARED_DOC)
 RULES_DOC["X4"] = common.X4_DOC
 RULES_DOC["X5"] = common.X5_DOC
+RULES_DOC["R5"] = "= C06.R1-R4 and C11.R10: a locker that blocks is counted on the pool it will be resumed on, and the condition wait re-locks with the stream it was resumed on (no stale copy of the caller's stream)"
 RULES_DOC.update({
     "R1": "reader_count / write_flag are accessed only under ABTI_rwlock::mutex; every exit has released it",
     "R2": "reader waits on write_flag only, writer on write_flag||reader_count; state change only after the loop exits with its condition false and no error",
@@ -418,3 +419,7 @@ def run(P, rep, tier):
     rule_R1_R2(P, rep)
     rule_R3(P, rep)
     rule_R4(P, rep)
+    from . import C06, C11
+    common.borrow(rep, P, C06.rule_R1_R3_R4, "R5")
+    common.borrow(rep, P, C06.rule_R2, "R5")
+    common.borrow(rep, P, C11.rule_R10, "R5")
